@@ -91,6 +91,16 @@ mut("c34_ts_reverse_missing", ["C34"], "jump evaluator registers TS clusters for
           "                    TS1 = (TS[1] - R1, TS[0] - R1)\n")])
 mut("c34_transitions_stale_occ", ["C34"], "transitions() filters forbidden jumps with the initial site only",
     [(CL, "                if self.occ[i] == 0 or self.occ[j] == 1:\n                    continue\n", "                if self.occ[i] == 0:\n                    continue\n")])
+mut("c34_supercell_memo_ignores_vacancy", ["C34"], "ClusterSupercell.clusterevaluator memoises its result per (spectator occupation, values) and forgets that the vacancy position is an input too",
+    [(SC, "        E0 = 0\n        if len(values) > len(clusters):\n            E0 = self.size * values[-1]\n        Ninteract = 0\n        interact, interdict = [], {}\n        siteinteract = [[] for n in range(self.Nmobile * self.size)]\n",
+          "        memokey = (tuple(int(x) for x in socc), tuple(float(v) for v in values), len(clusters))\n        if getattr(self, '_evalmemo', None) is not None and self._evalmemo[0] == memokey:\n            return [list(x) for x in self._evalmemo[1]], list(self._evalmemo[2])\n        E0 = 0\n        if len(values) > len(clusters):\n            E0 = self.size * values[-1]\n        Ninteract = 0\n        interact, interdict = [], {}\n        siteinteract = [[] for n in range(self.Nmobile * self.size)]\n"),
+     (SC, "        # add on our constant term\n        interact.append(E0)\n        return siteinteract, interact\n\n    def jumpnetworkevaluator(self",
+          "        # add on our constant term\n        interact.append(E0)\n        self._evalmemo = (memokey, [list(x) for x in siteinteract], list(interact))\n        return siteinteract, interact\n\n    def jumpnetworkevaluator(self")])
+mut("c33_supercell_memo_ignores_values", ["C33"], "ClusterSupercell.clusterevaluator memoises the interaction table per supercell object, keyed by the cluster list only (values and spectator occupation of the first caller are reused)",
+    [(SC, "        E0 = 0\n        if len(values) > len(clusters):\n            E0 = self.size * values[-1]\n        Ninteract = 0\n        interact, interdict = [], {}\n        siteinteract = [[] for n in range(self.Nmobile * self.size)]\n",
+          "        memokey = (id(clusters), len(clusters), self.vacancy)\n        if getattr(self, '_evalmemo', None) is not None and self._evalmemo[0] == memokey:\n            return [list(x) for x in self._evalmemo[1]], list(self._evalmemo[2])\n        E0 = 0\n        if len(values) > len(clusters):\n            E0 = self.size * values[-1]\n        Ninteract = 0\n        interact, interdict = [], {}\n        siteinteract = [[] for n in range(self.Nmobile * self.size)]\n"),
+     (SC, "        # add on our constant term\n        interact.append(E0)\n        return siteinteract, interact\n\n    def jumpnetworkevaluator(self",
+          "        # add on our constant term\n        interact.append(E0)\n        self._evalmemo = (memokey, [list(x) for x in siteinteract], list(interact))\n        return siteinteract, interact\n\n    def jumpnetworkevaluator(self")])
 # ---------------- C35
 mut("c35_np_Inf", ["C35"], "re-introduce D5", [(CL, "self.jump_Q[n] = np.inf", "self.jump_Q[n] = np.Inf")])
 mut("c35_mcmoves_le", ["C35"], "MCmoves accepts ties (<= instead of <)", [(CL, "            if dE < kTlogu[i]:\n", "            if dE <= kTlogu[i]:\n")])
